@@ -8,7 +8,7 @@ RULE = ('cases = (Y, X) int32 code vectors: every pair of set partitions of n ro
         'plus seeded random joint structures per named class (uniform, zipf, giant+singletons, all-distinct, constant, '
         'functional dependence either way, near-independent, sparse codes up to 2^20-1, self, permuted-self, tiny) at '
         'n from 1 to 10^3 (quick) / 2*10^4 high-cardinality and 10^6 low-cardinality (thorough); a second pass runs under '
-        'NUMBA_BOUNDSCHECK=1. distinct = (n, multiset of joint counts with marginals); non-trivial = both sides '
+        'NUMBA_BOUNDSCHECK=1 and a third with the JIT disabled (the kernels executed by the interpreter; their executed source lines are listed in this file). distinct = (n, multiset of joint counts with marginals); non-trivial = both sides '
         'non-constant and the model MI further than 10*tol from 0 and from both entropies.')
 REQUIRED = {'inputs-untouched': 100, 'plugin-mi': 100, 'symmetry': 100, 'bounds': 100, 'self-entropy': 20, 'constant-zero': 5}
 EXHAUSTIVE_NOTE = {'quick': 'all pairs of set partitions of n rows, n = 1..6 (Bell(n)^2 pairs each)',
@@ -31,6 +31,9 @@ def plan(tier, seed):
         shards.append({'name': 'random-%d' % i, 'fn': 'shard_random', 'args': {'part': i, 'parts': nr, 'big': False}})
     shards.append({'name': 'random-boundscheck', 'fn': 'shard_random', 'args': {'part': 0, 'parts': 4 if tier == 'quick' else 2, 'big': False},
                    'env': {'NUMBA_BOUNDSCHECK': '1'}})
+    # the same kernels run by the interpreter (JIT off): an independent execution of the source, and the only one whose lines the
+    # line monitor can see - the evidence lists which kernel lines these cases executed
+    shards.append({'name': 'random-interpreted', 'fn': 'shard_random', 'args': {'part': 1, 'parts': nr, 'big': False}, 'env': {'NUMBA_DISABLE_JIT': '1'}})
     for i in range(2 if tier == 'quick' else 6):
         shards.append({'name': 'via-dispatch-%d' % i, 'fn': 'shard_dispatch', 'args': {'part': i}})
     for i in range(3 if tier == 'quick' else 8):
